@@ -5,7 +5,7 @@ EXTRA = ["common/env.c"]
 
 META = {
     "bounds": "B1: coap_split_uri and coap_split_proxy_uri on \"<scheme>://\" (each of the 8 schemes, concrete) followed by every tail of "
-              "k bytes (coap: k <= 5 quick / 7 thorough; other schemes k = 3-4 quick / <= 6 thorough) and on every string of <= 4 (quick) / 6 "
+              "k bytes (coap: k <= 8 quick / 10 thorough; other schemes k = 3-4 quick / <= 6 thorough) and on every string of <= 4 (quick) / 6 "
               "(thorough) bytes without a scheme, exact-size input object, symbolic build support for DTLS/TCP/TLS/WS/WSS: accept/reject, scheme, "
               "host (reg-name or inside of an IPv6 literal), port (explicit or scheme default, 0 for Unix-domain), path and query slices equal "
               "an independent RFC 7252 6.1/6.2 splitter; L1: dots() on every segment of length <= 5 (quick) / 7 (thorough) and check_segment() on every segment of "
@@ -68,15 +68,17 @@ def jobs():
                           desc="coap_split_%suri on every %d-byte string (too short for a scheme): only abs-path[?query] accepted" % ("proxy_" if px else "", n),
                           bounds={"n": n, "proxy": px}))
     for sch, nm in enumerate(names):
-        for k in range(0, 8):
+        for k in range(0, 11):
             for px in (0, 1):
                 if sch == 0 and not px:
-                    tier = "quick" if k <= 5 else "thorough"
+                    tier = "quick" if k <= 8 else "thorough"
                 elif k == 3 or (k == 4 and px == (sch >= 4)):
                     tier = "quick"
                 elif k <= 6:
                     tier = "thorough"
                 else:
+                    continue
+                if k > 7 and (sch or px):
                     continue
                 js.append(Job("B1-split-uri@%s-k%d%s" % (nm, k, "-proxy" if px else ""), "C16/c16.c", "c16_b1_split_uri", UNITS, extra_src=EXTRA,
                               defines=["B1", "SCH=%d" % sch, "K=%d" % k, "PROXY=%d" % px, "ENV_NO_ALLOC"], unwind=k + 24,
